@@ -195,6 +195,7 @@ impl<'a> LexicographicIterator for SortedVecLexIterator<'a> {
 pub struct StreamingLexIterator<R: std::io::Read> {
     reader: std::io::BufReader<R>,
     current_line: String,
+    has_current: bool,
     buffer: Vec<u8>,
     finished: bool,
     line_number: usize,
@@ -208,6 +209,7 @@ impl<R: std::io::Read> StreamingLexIterator<R> {
         Self {
             reader: std::io::BufReader::new(reader),
             current_line: String::new(),
+            has_current: false,
             buffer: Vec::with_capacity(8192), // 8KB initial buffer
             finished: false,
             line_number: 0,
@@ -219,6 +221,7 @@ impl<R: std::io::Read> StreamingLexIterator<R> {
         use std::io::BufRead;
 
         self.current_line.clear();
+        self.has_current = false;
         match self.reader.read_line(&mut self.current_line) {
             Ok(0) => {
                 self.finished = true;
@@ -233,6 +236,7 @@ impl<R: std::io::Read> StreamingLexIterator<R> {
                     }
                 }
                 self.line_number += 1;
+                self.has_current = true;
                 Ok(true)
             }
             Err(e) => Err(e),
@@ -244,7 +248,8 @@ impl<R: std::io::Read> LexicographicIterator for StreamingLexIterator<R> {
     type Error = ZiporaError;
 
     fn current(&self) -> Option<&str> {
-        if self.finished || self.current_line.is_empty() {
+        // An empty line is a string too: only "nothing read yet" and "end of stream" have no current
+        if self.finished || !self.has_current {
             None
         } else {
             Some(&self.current_line)
